@@ -24,6 +24,7 @@ func propC11(c *Ctx) propInfo {
 	c.floor("E8.mustcheck", 1)
 	c.floor("E8.bounds", 1)
 	c.adnlLayouts()
+	c.adnlSmallFacts()
 	c.cipherContinuity()
 	c.sendUnderLock()
 	c.floor("E7.bytelayout", 12)
@@ -323,4 +324,86 @@ func (c *Ctx) sendUnderLock() {
 		}
 	}
 	c.floor(R, 3)
+}
+
+// adnlSmallFacts (after the mutation battery): the payload buffer ParsePacket allocates has
+// exactly the size of the slice copied into it; NewAddress accepts exactly an Ed25519 public key
+// (32 bytes); the key id is sha256(TL id of pub.ed25519 | key), the id being c6 b4 13 48.
+func (c *Ctx) adnlSmallFacts() {
+	const R = "E7.bytelayout"
+	if f := c.fn("liteclient", "ParsePacket"); f != nil {
+		okv, desc := false, "no copy into a made payload buffer found"
+		allInstrs(f, func(b *ssa.BasicBlock, in ssa.Instruction) {
+			cl, ok := in.(*ssa.Call)
+			if !ok {
+				return
+			}
+			bi, ok := cl.Call.Value.(*ssa.Builtin)
+			if !ok || bi.Name() != "copy" {
+				return
+			}
+			src, ok := cl.Call.Args[1].(*ssa.Slice)
+			if !ok || src.High == nil || src.Low == nil {
+				return
+			}
+			// destination: a load of a field whose last store is a MakeSlice
+			var mk *ssa.MakeSlice
+			derivesFrom(cl.Call.Args[0], func(v ssa.Value) bool {
+				if m, ok := v.(*ssa.MakeSlice); ok {
+					mk = m
+					return true
+				}
+				return false
+			}, false)
+			if mk == nil {
+				return
+			}
+			p := c.newProver(f, b)
+			d := p.lin(mk.Len).sub(p.lin(src.High)).add(p.lin(src.Low))
+			okv = d.isConst() && d.k.Sign() == 0
+			desc = fmt.Sprintf("make(%s) vs [%s:%s]", shape(mk.Len, 3), shape(src.Low, 3), shape(src.High, 3))
+		})
+		c.check(okv, R, "ParsePacket's payload buffer has the size of the payload slice", f.Pos(), desc, "ParsePacket allocates the payload with "+desc+": copy fills the shorter of the two, so the payload is cut (and the checksum of every frame fails) or padded with zero bytes")
+	}
+	if f := c.fn("liteclient", "NewAddress"); f != nil {
+		c.boundsAtSuccess("E8.bounds", f, 1, "len(key)", lenOf(nil), 32, 32)
+	}
+	if f := c.fn("liteclient", "Address.hash"); f != nil {
+		var first []int64
+		n := 0
+		allInstrs(f, func(_ *ssa.BasicBlock, in ssa.Instruction) {
+			cl, ok := in.(*ssa.Call)
+			if !ok || !cl.Call.IsInvoke() || cl.Call.Method.Name() != "Write" {
+				return
+			}
+			n++
+			if n != 1 {
+				return
+			}
+			if sl, ok := cl.Call.Args[0].(*ssa.Slice); ok {
+				if al, ok := sl.X.(*ssa.Alloc); ok {
+					vals := map[int64]int64{}
+					for _, ref := range *al.Referrers() {
+						if ia, ok := ref.(*ssa.IndexAddr); ok {
+							if i, ok := constInt(ia.Index); ok {
+								for _, st := range storesTo(ia) {
+									if k, ok := constInt(st.Val); ok {
+										vals[i] = k
+									}
+								}
+							}
+						}
+					}
+					for i := int64(0); i < int64(len(vals)); i++ {
+						first = append(first, vals[i])
+					}
+				}
+			}
+		})
+		got := ""
+		for _, b := range first {
+			got += fmt.Sprintf("%02x", b)
+		}
+		c.check(got == "c6b41348" && n == 2 && len(callsTo(f, "crypto/sha256.New")) == 1, R, "key id = sha256(c6b41348 | public key)", f.Pos(), got, "Address.hash hashes the prefix "+got+" (then "+fmt.Sprint(n-1)+" more piece(s)); an ADNL key id is sha256 over the TL id of pub.ed25519, c6 b4 13 48, followed by the 32-byte key - with any other prefix the server does not recognise the key it is addressed by")
+	}
 }
